@@ -195,7 +195,28 @@ def cases(tier, seed):
     out.append({"k": "division"})
     for shape in [(3,), (2, 3), (2, 2, 3)]:
         out.append({"k": "apply", "s": list(shape)})
+    out.append({"k": "nan"})
     return out
+
+
+def run_nan(case, R):
+    """nan among the constants where numpy's answer does not involve an order: closeness (equal_nan default and given),
+    equality, finiteness, arithmetic (results compared with nan taken equal to nan)"""
+    nan = float("nan")
+    for a in (numpy.array([nan, 1.0, 2.0]), numpy.array([[nan, nan], [0.0, -1.5]]), numpy.array(nan)):
+        b = numpy.where(numpy.isnan(a), a, a + 1e-12)
+        p, q = const_poly(a), const_poly(b, "q1")
+        tags = ["kind=nf", "nan"]
+        R.state(("nan", a.shape))
+        for fname, kws in (("isclose", [{}, {"equal_nan": True}, {"equal_nan": False}, {"rtol": 0.0, "atol": 0.0}]), ("allclose", [{}, {"equal_nan": True}]),
+                           ("equal", [{}]), ("not_equal", [{}]), ("add", [{}]), ("multiply", [{}]), ("subtract", [{}])):
+            for kw in kws:
+                npf = getattr(numpy, fname)
+                for lab, x, y, nx, ny in (("(a,b)", p, q, a, b), ("(a,a)", p, p, a, a), ("(b,a)", q, p, b, a)):
+                    judge(R, fname, f"{lab} {kw} a={a.tolist()}", lambda: getattr(numpoly, fname)(x, y, **kw), lambda: npf(nx, ny, **kw), tags, strict_kind=fname in BOOL_FUNCS)
+                    judge(R, fname, f"[numpy]{lab} {kw} a={a.tolist()}", lambda: npf(x, y, **kw), lambda: npf(nx, ny, **kw), tags, strict_kind=fname in BOOL_FUNCS)
+        for fname in ("isfinite", "negative", "absolute", "square"):
+            judge(R, fname, f"({a.tolist()})", lambda: getattr(numpoly, fname)(p), lambda: getattr(numpy, fname)(a), tags, strict_kind=fname in BOOL_FUNCS)
 
 
 def run_apply(case, R):
@@ -227,6 +248,8 @@ def run_case(case, R):
     k = case["k"]
     if k == "apply":
         return run_apply(case, R)
+    if k == "nan":
+        return run_nan(case, R)
     if k in ("reductions", "elementwise"):
         shape, rot, kind = tuple(case["s"]), case["rot"], case["kind"]
         a = filled(shape, rot, kind)
